@@ -213,7 +213,7 @@ func verdictKey(want bool) string {
 func TestC20Predicates(t *testing.T) {
 	defer vlib.Done()
 	const sub = "predicates/satisfaction"
-	vlib.Check(t, vlib.N(2500, 12000), func(t *rapid.T) {
+	vlib.Check(t, vlib.N(2500, 8000), func(t *rapid.T) {
 		F, src, st := drawCase(t)
 		tt := abe.TruthTable(F, alphabet)
 		// the two reference evaluators agree (cheap continuous self-test)
@@ -549,6 +549,32 @@ func checkDecrypt(t vlib.TB, e *sysEnv, c *cycleCtx, ct []byte, format string, i
 	return true
 }
 
+// topFrame names the innermost circl function on a panic stack.
+func topFrame(stack string) string {
+	lines := strings.Split(stack, "\n")
+	seenPanic := false
+	for _, l := range lines {
+		if strings.HasPrefix(l, "panic(") {
+			seenPanic = true
+			continue
+		}
+		if !seenPanic || strings.HasPrefix(l, "\t") {
+			continue
+		}
+		if i := strings.Index(l, "github.com/cloudflare/circl/"); i >= 0 && !strings.Contains(l, "zz_verif") {
+			f := l[i+len("github.com/cloudflare/circl/"):]
+			if j := strings.LastIndex(f, "("); j > 0 {
+				f = f[:j]
+			}
+			if k := strings.LastIndex(f, "/"); k >= 0 {
+				f = f[k+1:]
+			}
+			return f
+		}
+	}
+	return "?"
+}
+
 const (
 	entDecrypt = "Decrypt"
 	entCould   = "CouldDecrypt"
@@ -581,7 +607,7 @@ func alteration(rep func(key, detail string) bool, ac *altCtx, ct, ct2 []byte, f
 		return true
 	}
 	if pn != nil {
-		vlib.Class(sub, "panic:"+entDecrypt+":"+vlib.PanicClass(pn))
+		vlib.Class(sub, "panic:"+entDecrypt+":"+vlib.PanicClass(pn)+"@"+topFrame(st))
 		if !panicked(entDecrypt, pn, st) {
 			return false
 		}
@@ -612,7 +638,7 @@ func alteration(rep func(key, detail string) bool, ac *altCtx, ct, ct2 []byte, f
 	if headerTouched {
 		var cd bool
 		if p, st := vlib.Catch(func() { cd = ac.attrs.CouldDecrypt(ct2) }); p != nil {
-			vlib.Class(sub, "panic:"+entCould+":"+vlib.PanicClass(p))
+			vlib.Class(sub, "panic:"+entCould+":"+vlib.PanicClass(p)+"@"+topFrame(st))
 			if !panicked(entCould, p, st) {
 				return false
 			}
@@ -621,7 +647,7 @@ func alteration(rep func(key, detail string) bool, ac *altCtx, ct, ct2 []byte, f
 		}
 		var pe cpabe.Policy
 		if p, st := vlib.Catch(func() { _ = pe.ExtractFromCiphertext(ct2) }); p != nil {
-			vlib.Class(sub, "panic:"+entExtract+":"+vlib.PanicClass(p))
+			vlib.Class(sub, "panic:"+entExtract+":"+vlib.PanicClass(p)+"@"+topFrame(st))
 			if !panicked(entExtract, p, st) {
 				return false
 			}
@@ -669,7 +695,7 @@ func TestC20Cycle(t *testing.T) {
 	if e == nil {
 		return
 	}
-	vlib.Check(t, vlib.N(50, 260), func(t *rapid.T) {
+	vlib.Check(t, vlib.N(50, 150), func(t *rapid.T) {
 		F, src, _ := drawCase(t)
 		c := &cycleCtx{F: F, src: src, tt: abe.TruthTable(F, alphabet), hard: F.Nots() > 0 || F.RepeatedLabel(), labels: F.Labels()}
 		c.msg = make([]byte, rapid.SampledFrom(msgLens).Draw(t, "msgLen"))
@@ -961,7 +987,7 @@ var soupTokens = []string{"(", ")", ":", "and", "or", "not", "a", "b", "c", "0",
 func TestC20Soup(t *testing.T) {
 	defer vlib.Done()
 	const sub = "soup"
-	vlib.Check(t, vlib.N(2000, 10000), func(t *rapid.T) {
+	vlib.Check(t, vlib.N(2000, 6000), func(t *rapid.T) {
 		var s string
 		if rapid.Bool().Draw(t, "fromValid") {
 			F := genFormula(t)
